@@ -1,0 +1,10 @@
+//go:build !verif
+
+package function
+
+// verifYield is a no-op in regular builds; the verification harness (build tag `verif`) uses it to force
+// the order in which the per-function analyses hand over their results.
+func verifYield(int) {}
+
+// verifSent is the matching no-op called after the result has been handed over.
+func verifSent(int) {}
